@@ -65,6 +65,19 @@ pub fn containers(nil_ne: bool) -> (String, Uni) {
     (tag, uni)
 }
 
+/// (function, field it is applied to) for the identity functions on container types.
+pub const ID_FNS: [(&str, &str); 6] = [("idxi", "xi"), ("idmi", "mi"), ("idms", "ms"), ("idxxi", "xxi"), ("idmxi", "mxi"), ("idxmi", "xmi")];
+
+/// The container universe plus identity functions on container types (C02: function results
+/// indexed like fields).
+pub fn containers_id(nil_ne: bool) -> (String, Uni) {
+    let (tag, mut uni) = containers(nil_ne);
+    for (f, _) in ID_FNS {
+        uni.funcs.push(crate::uni::fn_spec(f));
+    }
+    (tag.replacen("containers", "containers-id", 1), uni)
+}
+
 /// Typing universe (C04): the container universe with `i s t xi xb` mandatory.
 pub fn typing(nil_ne: bool) -> (String, Uni) {
     let (_, mut uni) = containers(nil_ne);
@@ -89,6 +102,7 @@ pub fn by_tag(tag: &str) -> Option<Uni> {
     match head {
         "scalar" => Some(scalar(flag(tag, "opt"), flag(tag, "nilne")).1),
         "containers" => Some(containers(flag(tag, "nilne")).1),
+        "containers-id" => Some(containers_id(flag(tag, "nilne")).1),
         "typing" => Some(typing(flag(tag, "nilne")).1),
         "nest" => Some(nest().1),
         _ => crate::checks::universe_by_tag(tag),
